@@ -98,6 +98,9 @@ pub struct PtTrace {
     /// consist-level getters after the last accepted step
     pub con_energy_fuel: f64,
     pub con_net_energy_res: f64,
+    /// per unit (and consist), the state after the last step of the history
+    pub final_units: Vec<Vals>,
+    pub final_con: Vals,
 }
 
 fn request_for(s: &StepSpec, lim_out: f64, lim_regen: f64, lim_brake: f64) -> f64 {
@@ -117,7 +120,10 @@ fn request_for(s: &StepSpec, lim_out: f64, lim_regen: f64, lim_brake: f64) -> f6
 }
 
 pub fn drive(case: &PtCase) -> PtTrace {
-    let mut tr = PtTrace { steps: vec![], build_err: None, con_energy_fuel: 0.0, con_net_energy_res: 0.0 };
+    let mut tr = PtTrace { steps: vec![], build_err: None, con_energy_fuel: 0.0, con_net_energy_res: 0.0, final_units: vec![], final_con: Vals::new() };
+    // time on the trace the simulation objects would be given: every step's dt is the
+    // difference of two trace times, so that `PowerTrace::dt(i)` reproduces it bit for bit
+    let mut t_prev = 0.0f64;
     if case.consist {
         let mut con: Consist = match build_consist(&case.units, case.pdct, None) {
             Ok(c) => c,
@@ -127,9 +133,11 @@ pub fn drive(case: &PtCase) -> PtTrace {
             }
         };
         for s in &case.steps {
-            let dt = uc::S * s.dt;
+            let t_new = t_prev + s.dt;
+            let dt_used = t_new - t_prev;
+            let dt = uc::S * dt_used;
             let mut rec = StepRec {
-                dt: s.dt,
+                dt: dt_used,
                 engine_on: true,
                 kind: s.kind,
                 frac: s.frac,
@@ -163,6 +171,7 @@ pub fn drive(case: &PtCase) -> PtTrace {
                     flatten("con", &serde_json::to_value(con.state).unwrap(), &mut rec.con_post);
                     con.save_state();
                     con.step();
+                    t_prev = t_new;
                     tr.con_energy_fuel = con.get_energy_fuel().value;
                     tr.con_net_energy_res = con.get_net_energy_res().value;
                     tr.steps.push(rec);
@@ -176,6 +185,8 @@ pub fn drive(case: &PtCase) -> PtTrace {
                 }
             }
         }
+        tr.final_units = con.loco_vec.iter().map(unit_vals).collect();
+        flatten("con", &serde_json::to_value(con.state).unwrap(), &mut tr.final_con);
     } else {
         let mut loco = match build_unit(&case.units[0], None) {
             Ok(l) => l,
@@ -186,10 +197,12 @@ pub fn drive(case: &PtCase) -> PtTrace {
         };
         let edrv_rating = case.units[0].edrv().pwr_max;
         for s in &case.steps {
-            let dt = uc::S * s.dt;
+            let t_new = t_prev + s.dt;
+            let dt_used = t_new - t_prev;
+            let dt = uc::S * dt_used;
             let eo = Some(s.engine_on);
             let mut rec = StepRec {
-                dt: s.dt,
+                dt: dt_used,
                 engine_on: s.engine_on,
                 kind: s.kind,
                 frac: s.frac,
@@ -216,6 +229,7 @@ pub fn drive(case: &PtCase) -> PtTrace {
                     rec.post = vec![unit_vals(&loco)];
                     loco.save_state();
                     loco.step();
+                    t_prev = t_new;
                     tr.steps.push(rec);
                 }
                 Err(e) => {
@@ -227,8 +241,70 @@ pub fn drive(case: &PtCase) -> PtTrace {
                 }
             }
         }
+        tr.final_units = vec![unit_vals(&loco)];
     }
     tr
+}
+
+/// The histories above are produced by calling, in their documented order, what
+/// `LocomotiveSimulation::solve_step` / `ConsistSimulation::solve_step` call.  Here the
+/// accepted steps are handed to the simulation objects themselves as a power trace and
+/// walked: the objects must end in the identical state, value for value.
+pub fn sim_differential(case: &PtCase, tr: &PtTrace, cx: &mut Ctx) {
+    use altrios_core::consist::consist_sim::ConsistSimulation;
+    use altrios_core::consist::locomotive::loco_sim::{LocomotiveSimulation, PowerTrace};
+    let acc: Vec<&StepRec> = tr.steps.iter().filter(|s| s.accepted).collect();
+    if acc.is_empty() || (case.retry_on_same_object && tr.steps.iter().any(|s| !s.accepted)) {
+        return;
+    }
+    let mut time = vec![0.0f64];
+    for s in &acc {
+        let t = *time.last().unwrap() + s.dt;
+        time.push(t);
+    }
+    let pwr: Vec<f64> = std::iter::once(0.0).chain(acc.iter().map(|s| s.request)).collect();
+    let eo: Vec<Option<bool>> = std::iter::once(Some(true)).chain(acc.iter().map(|s| Some(s.engine_on))).collect();
+    let trace = PowerTrace::new(time, pwr, eo);
+    let borderline = acc.iter().any(|s| s.kind != 4 && s.frac >= 0.999 && s.request != 0.0);
+    let (res, units, con): (anyhow::Result<()>, Vec<Vals>, Vals) = if case.consist {
+        let Ok(c) = build_consist(&case.units, case.pdct, None) else { return };
+        let mut sim = ConsistSimulation::new(c, trace, None);
+        let r = sim.walk();
+        let mut cv = Vals::new();
+        flatten("con", &serde_json::to_value(sim.loco_con.state).unwrap(), &mut cv);
+        (r, sim.loco_con.loco_vec.iter().map(unit_vals).collect(), cv)
+    } else {
+        let Ok(l) = build_unit(&case.units[0], None) else { return };
+        let mut sim = LocomotiveSimulation::new(l, trace, None);
+        let r = sim.walk();
+        (r, vec![unit_vals(&sim.loco_unit)], Vals::new())
+    };
+    cx.label("history_also_walked_by_the_simulation_object");
+    if let Err(e) = res {
+        // the simulation object makes one more test than the direct calls (delivered == trace
+        // power); a request sitting on a limit may fall on the other side of it
+        cx.label(if borderline { "simulation_object_rejects_a_step_on_a_limit" } else { "simulation_object_rejects_a_step" });
+        if !borderline {
+            cx.fail("C01|sim|simulation-object-rejects-a-history-its-own-calls-accept", format!("{} accepted steps; walk(): {}", acc.len(), format!("{e:#}").chars().take(300).collect::<String>()));
+        }
+        return;
+    }
+    for (u, (a, b)) in units.iter().zip(tr.final_units.iter()).enumerate() {
+        for (k, x) in a {
+            let y = b.get(k).copied().unwrap_or(f64::NAN);
+            if !(*x == y || (x.is_nan() && y.is_nan())) {
+                cx.fail("C01|sim|simulation-object-ends-in-a-different-state", format!("unit {u} {k}: walk() {x:e} vs direct calls {y:e} after {} steps", acc.len()));
+                return;
+            }
+        }
+    }
+    for (k, x) in &con {
+        let y = tr.final_con.get(k).copied().unwrap_or(f64::NAN);
+        if !(*x == y || (x.is_nan() && y.is_nan())) {
+            cx.fail("C01|sim|simulation-object-ends-in-a-different-state", format!("consist {k}: walk() {x:e} vs direct calls {y:e} after {} steps", acc.len()));
+            return;
+        }
+    }
 }
 
 fn g(v: &Vals, k: &str) -> f64 {
@@ -290,6 +366,7 @@ pub fn check_c01(case: &PtCase, cx: &mut Ctx) {
         return;
     }
     let (n_acc, traction, braking, _regen) = common_labels(case, &tr, cx);
+    sim_differential(case, &tr, cx);
     let nu = case.units.len();
     // own integrals of every pwr_* with a matching energy_* in the same state struct
     let mut own: Vec<BTreeMap<String, (f64, f64)>> = vec![BTreeMap::new(); nu]; // key -> (sum, abs sum)
